@@ -237,7 +237,10 @@ fn leg_dataset(cfg: &Cfg, exp: &Expected) -> Local {
             let ti = rng.usize(4);
             let tc = &tss[ti];
             let mut elems: Vec<DataElement<InMemDicomObject>> = Vec::new();
-            elems.push(DataElement::new(Tag(0x0008, 0x0005), VR::CS, PrimitiveValue::from(term)));
+            // Specific Character Set as a single string (what an application builds) or as a
+            // one-element list (what the reader produces): the writer must switch codec for both
+            let cs_as_list = idx % 2 == 1;
+            elems.push(DataElement::new(Tag(0x0008, 0x0005), VR::CS, if cs_as_list { PrimitiveValue::Strs([term.to_string()].into_iter().collect()) } else { PrimitiveValue::from(term) }));
             // default-repertoire VRs stay ASCII
             elems.push(DataElement::new(Tag(0x0008, 0x0016), VR::UI, PrimitiveValue::from("1.2.840.10008.5.1.4.1.1.7")));
             elems.push(DataElement::new(Tag(0x0008, 0x0020), VR::DA, PrimitiveValue::from("20240229")));
@@ -257,7 +260,7 @@ fn leg_dataset(cfg: &Cfg, exp: &Expected) -> Local {
             let replay = json!({"seed": cfg.seed, "stream": 102, "case": idx, "leg": "dataset", "term": term, "ts": tc.name,
                 "values": expected.iter().map(|e| json!({"tag": format!("{:04X}{:04X}", e.0.0, e.0.1), "vr": e.1.to_string(), "values": e.2})).collect::<Vec<_>>()});
             l.eval();
-            l.class(format!("dataset|{}|{}|5c={}", term, tc.name, use5c));
+            l.class(format!("dataset|{}|{}|5c={}|cs-as-list={}", term, tc.name, use5c, cs_as_list));
             let mut bytes = Vec::new();
             if let Err(e) = obj.write_dataset_with_ts(&mut bytes, &tc.ts) {
                 l.violation(format!("dataset|write-error|{}", term), err_chain(&e), replay);
@@ -338,11 +341,101 @@ fn replay_sample(r: &J) -> J {
     json!({"term": r["term"], "ts": r["ts"], "values": r["values"]})
 }
 
+/// Changing the Specific Character Set of a *decoded* object (explicit-length sequences and items
+/// recorded) and writing it again: nested text must be re-encoded with the new set and the output
+/// must read back unchanged under every writer strategy.
+fn leg_recode(cfg: &Cfg) -> Local {
+    use crate::gen::tree::{GElem, GItem, GSeq, GVal};
+    use crate::props::c01::{write_with, Api};
+    use crate::refenc::{LenMode, Ts};
+    use dicom_core::ops::{ApplyOp, AttributeAction, AttributeOp};
+    const PAIRS: [(&str, &str, &str); 6] = [
+        ("ISO_IR 100", "ISO_IR 192", "\u{e9}\u{fc}\u{f1}\u{c5}\u{df}"),
+        ("ISO_IR 192", "ISO_IR 100", "\u{e9}\u{fc}\u{f1}\u{c5}\u{df}"),
+        ("ISO_IR 144", "ISO_IR 192", "\u{416}\u{434}\u{44f}\u{429}"),
+        ("ISO_IR 192", "ISO_IR 144", "\u{416}\u{434}\u{44f}\u{429}"),
+        ("ISO_IR 126", "ISO_IR 192", "\u{3b1}\u{3b2}\u{3b3}\u{3a9}"),
+        ("ISO_IR 192", "ISO_IR 126", "\u{3b1}\u{3b2}\u{3b3}\u{3a9}"),
+    ];
+    let tss = crate::props::c01::four_ts();
+    let n = cfg.n(3_000, 60_000);
+    run_parallel(
+        cfg,
+        103,
+        RunLimits { cases: n, wall: Duration::from_secs(if cfg.thorough() { 600 } else { 60 }) },
+        |l: &mut Local, rng: &mut Rng, idx: u64| {
+            let (from, to, sample) = *rng.pick(&PAIRS);
+            let sample: Vec<char> = sample.chars().collect();
+            let k = rng.urange(1, 9);
+            let mut text: String = (0..k).map(|_| if rng.bool() { *rng.pick(&sample) } else { *rng.pick(&['A', 'b', '7', ' ', 'Z']) }).collect();
+            if rng.bool() { text.insert(0, *rng.pick(&sample)); } else { text.push(*rng.pick(&sample)); }
+            let text = text.trim_matches(' ').to_string();
+            let Some(codec) = SpecificCharacterSet::from_code(from) else { return };
+            let Ok(raw) = codec.encode(&text) else { return };
+            let ti = rng.usize(3);
+            let tc = &tss[ti];
+            let ts = Ts::ALL[ti];
+            let ds = vec![
+                GElem { tag: (0x0008, 0x0005), vr: VR::CS, val: GVal::Strs(vec![from.to_string()]) },
+                GElem { tag: (0x0008, 0x1140), vr: VR::SQ, val: GVal::Seq(GSeq { explicit: rng.chance(3, 4), items: vec![
+                    GItem { explicit: rng.chance(3, 4), elems: vec![GElem { tag: (0x0008, 0x103E), vr: VR::LO, val: GVal::U8(raw.clone()) }] },
+                    GItem { explicit: rng.bool(), elems: vec![GElem { tag: (0x0008, 0x0050), vr: VR::SH, val: GVal::Strs(vec!["ACC".into()]) }] },
+                ] }) },
+                GElem { tag: (0x0010, 0x0010), vr: VR::PN, val: GVal::U8(raw.clone()) },
+            ];
+            let enc = refenc::encode(&ds, ts, LenMode::AsMarked);
+            let replay = json!({"seed": cfg.seed, "stream": 103, "case": idx, "leg": "dataset", "from": from, "to": to, "text": text, "ts": tc.name, "stream_hex": hex_short(&enc.bytes, 400)});
+            let nested = |o: &InMemDicomObject| -> Option<String> {
+                let sq = o.get(Tag(0x0008, 0x1140))?;
+                let it = sq.items()?.first()?;
+                Some(it.get(Tag(0x0008, 0x103E))?.to_str().ok()?.trim_end().to_string())
+            };
+            let top = |o: &InMemDicomObject| -> Option<String> { Some(o.get(Tag(0x0010, 0x0010))?.to_str().ok()?.trim_end().to_string()) };
+            let Ok(obj0) = InMemDicomObject::read_dataset_with_ts(&enc.bytes[..], &tc.ts) else { l.count("recode_setup_unreadable", 1); return };
+            if nested(&obj0).as_deref() != Some(text.as_str()) || top(&obj0).as_deref() != Some(text.as_str()) {
+                l.count("recode_setup_mismatch", 1);
+                return;
+            }
+            for method in ["update_value", "put", "apply-SetStr", "apply-Set"] {
+                let mut obj = obj0.clone();
+                match method {
+                    "update_value" => { obj.update_value(Tag(0x0008, 0x0005), |v| *v = PrimitiveValue::from(to).into()); }
+                    "put" => { obj.put(DataElement::new(Tag(0x0008, 0x0005), VR::CS, PrimitiveValue::from(to))); }
+                    "apply-SetStr" => { let _ = obj.apply(AttributeOp::new(Tag(0x0008, 0x0005), AttributeAction::SetStr(to.into()))); }
+                    _ => { let _ = obj.apply(AttributeOp::new(Tag(0x0008, 0x0005), AttributeAction::Set(PrimitiveValue::from(to)))); }
+                }
+                for (an, api) in [("default", Api::Default), ("SetUndefined", Api::SetUndefined), ("NoChange", Api::NoChange)] {
+                    l.eval();
+                    l.class(format!("recode|{}>{}|{}|{}|{}", from, to, method, an, tc.name));
+                    let key = |k: &str| format!("recode|{}>{}|{}|{}|{}", from, to, method, an, k);
+                    let out = match guarded(|| write_with(&obj, &tc.ts, api)) {
+                        Err(p) => { l.violation(key(&format!("panic|{}", panic_loc(&p))), p, replay.clone()); continue; }
+                        Ok(Err(e)) => { l.violation(key("write-error"), e, replay.clone()); continue; }
+                        Ok(Ok(b)) => b,
+                    };
+                    match guarded(|| InMemDicomObject::read_dataset_with_ts(&out[..], &tc.ts)) {
+                        Err(p) => l.violation(key(&format!("read-panic|{}", panic_loc(&p))), p, replay.clone()),
+                        Ok(Err(e)) => l.violation(key("read-back-error"), format!("the rewritten data set cannot be read: {}", err_chain(&e)), replay.clone()),
+                        Ok(Ok(back)) => {
+                            let cs = back.get(Tag(0x0008, 0x0005)).and_then(|e| e.to_str().ok().map(|s| s.trim_end().to_string()));
+                            if cs.as_deref() != Some(to) || nested(&back).as_deref() != Some(text.as_str()) || top(&back).as_deref() != Some(text.as_str()) {
+                                l.violation(key("text-differs"), format!("after changing the character set from {} to {} the text {:?} reads back as nested {:?} / top-level {:?} (set {:?})", from, to, text, nested(&back), top(&back), cs), replay.clone());
+                            }
+                        }
+                    }
+                }
+            }
+        },
+    )
+}
+
 pub fn run(cfg: &Cfg) -> Outcome {
     let leg = cfg.opt("--leg").unwrap_or_else(|| "codec".into());
     let exp = load_expected(cfg.input.as_deref().expect("--in <charset table>"));
     if leg == "dataset" {
-        let mut o = Outcome::new(leg_dataset(cfg, &exp), "data sets starting with (0008,0005)=<term> followed by PN/LO/SH/UC (multi-valued) and LT/ST/UT values drawn from the set's repertoire (table of the independent Python codecs; characters whose encoding contains byte 0x5C exercised separately) and ASCII UI/DA/AE/CS values; written in 4 transfer syntaxes; monitors: wire bytes of each value == table bytes (+pad), default-repertoire VRs stay ASCII, read-back == written text");
+        let mut dl = leg_dataset(cfg, &exp);
+        dl.merge(leg_recode(cfg));
+        let mut o = Outcome::new(dl, "[plus: decoded objects with explicit-length sequences whose Specific Character Set is changed (update_value / put / apply) and which are written again with each writer strategy: nested and top-level text reads back unchanged in the new set] data sets starting with (0008,0005)=<term> followed by PN/LO/SH/UC (multi-valued) and LT/ST/UT values drawn from the set's repertoire (table of the independent Python codecs; characters whose encoding contains byte 0x5C exercised separately) and ASCII UI/DA/AE/CS values; written in 4 transfer syntaxes; monitors: wire bytes of each value == table bytes (+pad), default-repertoire VRs stay ASCII, read-back == written text");
         o.min_evaluations = 2000;
         o.min_classes = 40;
         o
